@@ -1270,8 +1270,7 @@ theorem dailyUpdate_invC {S : Prop} (p : Params) (d : Int) (st : St) (h : InvC S
   unfold dailyUpdate
   simp only []
   have hsub : ∀ x ∈ st.m.released, x ∈ st.m.released := fun x hx => hx
-  have h0 : InvC S p { st with m := { st.m with records := st.m.records.filter (fun r => r.date ≠ d - p.rd),
-                                              today := d, nflags := 0 } } := by
+  have h0 : InvC S p { st with m := { st.m with records := st.m.records.filter (fun r => r.date ≠ d - p.rd), today := d, nflags := 0 } } := by
     refine ⟨?_, ?_, h.poolThr, ?_, ?_, ?_⟩
     · intro pl hpl; exact planOK_mono (h.poolOK pl hpl) hsub hd
     · intro hS e he; exact planOK_mono (h.queueOK hS e he) hsub hd
@@ -1573,5 +1572,207 @@ theorem foldl_invD (p : Params) (cap : Nat) (ops : List Op1) (st : St) (h : InvD
 theorem run1_invD (p : Params) (cap : Nat) (ops : List Op1) (hw : WellDated p cap {} ops) :
     InvD p (run1 p cap ops) :=
   foldl_invD p cap ops {} ⟨by intro s; rfl, by simp⟩ (invC_init True p) hw
+
+/-! ### invariant K (any number of screening methods): completed + withdrawn + outstanding ≤ flags -/
+
+def K (sh : Shared) : Prop := ∀ s, sh.done s + sh.dropped s + outstanding sh.queue s ≤ sh.flags s
+
+theorem flagSite_K (cls : Nat) (pl : Plan) (route : Route) (d first : Int) (st : St) (h : K st.sh) :
+    K (flagSite cls pl route d first st).sh := by
+  intro s
+  have := h s
+  simp only [flagSite, enqueue, outstanding_qInsert]
+  by_cases hs : s = pl.site
+  · subst hs; simp; omega
+  · have h' : ¬ pl.site = s := fun e => hs e.symm
+    simp only [h', if_false, bump_other _ hs]; omega
+
+theorem qFindLast_pos {s : Nat} {q : List QE} {pl : Plan} (h : qFindLast s q = some pl) :
+    1 ≤ outstanding q s := by
+  obtain ⟨e, he, _, hs⟩ := qFindLast_some h
+  unfold outstanding
+  exact List.countP_pos_iff.mpr ⟨e, he, by subst_vars; simpa using hs⟩
+
+theorem requeue_K (sh : Shared) (site cls : Nat) (pl : Plan) (hs : pl.site = site)
+    (hpos : 1 ≤ outstanding sh.queue site) (h : K sh) :
+    K (enqueue cls pl { sh with queue := qRemove site sh.queue }) := by
+  intro s
+  have := h s
+  simp only [enqueue, outstanding_qInsert, outstanding_qRemove, hs]
+  by_cases h1 : s = site
+  · subst h1; simp; omega
+  · have h' : ¬ site = s := fun e => h1 e.symm
+    simp only [h1, h', if_false]; omega
+
+theorem drop_K (sh : Shared) (site : Nat) (hpos : 1 ≤ outstanding sh.queue site) (h : K sh) :
+    K { sh with queue := qRemove site sh.queue, inQueue := setB sh.inQueue site false,
+                dropped := bump sh.dropped site } := by
+  intro s
+  have := h s
+  simp only [outstanding_qRemove]
+  by_cases h1 : s = site
+  · subst h1; simp; omega
+  · simp only [h1, if_false, bump_other _ h1]; omega
+
+theorem updMobile_K (p : Params) (d dc : Int) (r : Rec) (st : St) (h : K st.sh) :
+    K (updMobile p d dc r st).sh := by
+  unfold updMobile
+  split
+  · rcases poolTake r.site st.m.pool with ⟨o, pool'⟩
+    cases o with
+    | none => exact h
+    | some pl =>
+      simp only []
+      split
+      · exact flagSite_K _ _ _ _ _ _ h
+      · split <;> exact h
+  · split
+    · cases hfl : qFindLast r.site st.sh.queue with
+      | none => exact h
+      | some pl =>
+        have hpos := qFindLast_pos hfl
+        have hs := (qFindLast_some hfl).choose_spec.2.2
+        simp only []
+        split
+        · exact requeue_K _ _ _ _ (by simpa using hs) hpos h
+        · split
+          · exact requeue_K _ _ _ _ (by simpa using hs) hpos h
+          · exact drop_K _ _ hpos h
+    · split
+      · exact flagSite_K _ _ _ _ _ _ h
+      · split
+        · exact h
+        · split <;> exact h
+
+theorem updStationary_K (p : Params) (d dc : Int) (r : Rec) (st : St) (h : K st.sh) :
+    K (updStationary p d dc r st).sh := by
+  unfold updStationary
+  split
+  · rcases poolTake r.site st.m.pool with ⟨o, pool'⟩
+    cases o with
+    | none => exact h
+    | some pl =>
+      simp only []
+      split
+      · exact flagSite_K _ _ _ _ _ _ h
+      · exact h
+  · split
+    · cases hfl : qFindLast r.site st.sh.queue with
+      | none => exact h
+      | some pl =>
+        have hpos := qFindLast_pos hfl
+        have hs := (qFindLast_some hfl).choose_spec.2.2
+        simp only []
+        split
+        · exact requeue_K _ _ _ _ (by simpa using hs) hpos h
+        · exact requeue_K _ _ _ _ (by simpa using hs) hpos h
+    · exact h
+
+theorem processRec_K (p : Params) (d dc : Int) (st : St) (r : Rec) (h : K st.sh) :
+    K (processRec p d dc st r).sh := by
+  unfold processRec
+  split
+  · split
+    · exact updStationary_K _ _ _ _ _ h
+    · exact updMobile_K _ _ _ _ _ h
+  · exact h
+
+theorem foldRec_K (p : Params) (d dc : Int) (rs : List Rec) (st : St) (h : K st.sh) :
+    K (rs.foldl (processRec p d dc) st).sh := by
+  induction rs generalizing st with
+  | nil => exact h
+  | cons r t ih => exact ih _ (processRec_K p d dc st r h)
+
+theorem foldFlag_K (p : Params) (d first : Int) (cs : List Plan) (st : St) (h : K st.sh) :
+    K (cs.foldl (flagOne p d first) st).sh := by
+  induction cs generalizing st with
+  | nil => exact h
+  | cons pl t ih =>
+    apply ih
+    unfold flagOne
+    split
+    · exact h
+    · exact flagSite_K _ _ _ _ _ _ h
+
+theorem dailyUpdate_K (p : Params) (d : Int) (st : St) (h : K st.sh) : K (dailyUpdate p d st).sh := by
+  unfold dailyUpdate
+  simp only []
+  have h1 := foldRec_K p d (d - p.rd) (st.m.records.filter (fun r => r.date = d - p.rd))
+    { st with m := { st.m with records := st.m.records.filter (fun r => r.date ≠ d - p.rd), today := d, nflags := 0 } } h
+  generalize (List.foldl (processRec p d (d - p.rd)) _ _) = mid at h1 ⊢
+  unfold updateCandidates decideNow
+  split
+  · split
+    · exact h1
+    · split
+      · exact foldFlag_K _ _ _ _ _ h1
+      · exact h1
+  · split
+    · exact foldFlag_K _ _ _ _ _ h1
+    · exact h1
+
+/-- the work plan keyed by site id never holds more plans of a site than were taken from the queue -/
+theorem cnt_dedup_fold (l : List QE) (acc : List Plan) (s : Nat) :
+    cnt (l.foldl (fun acc e =>
+      if acc.any (fun a => a.site = e.plan.site) then
+        acc.map (fun a => if a.site = e.plan.site then e.plan else a)
+      else acc ++ [e.plan]) acc) s ≤ cnt acc s + outstanding l s := by
+  induction l generalizing acc with
+  | nil => simp [outstanding_nil]
+  | cons e t ih =>
+    simp only [List.foldl_cons]
+    refine Nat.le_trans (ih _) ?_
+    rw [outstanding_cons]
+    split
+    · have : cnt (acc.map (fun a => if a.site = e.plan.site then e.plan else a)) s = cnt acc s := by
+        unfold cnt
+        rw [List.countP_map]
+        congr 1
+        funext a
+        simp only [Function.comp]
+        split
+        · rename_i ha; simp [ha]
+        · rfl
+      omega
+    · rw [cnt_append, cnt_cons, cnt_nil]; omega
+
+theorem applyOutcome_K (d : Int) (outs : Nat → Outcome) (sh : Shared) (pl : Plan) (cs : List Plan)
+    (h : ∀ s, sh.done s + sh.dropped s + outstanding sh.queue s + cnt (pl :: cs) s ≤ sh.flags s) :
+    ∀ s, (applyOutcome d outs sh pl).done s + (applyOutcome d outs sh pl).dropped s
+      + outstanding (applyOutcome d outs sh pl).queue s + cnt cs s ≤ (applyOutcome d outs sh pl).flags s := by
+  intro s
+  have := h s
+  rw [cnt_cons] at this
+  unfold applyOutcome
+  simp only []
+  split
+  · by_cases h1 : s = pl.site
+    · subst h1; simp at this ⊢; omega
+    · have h' : ¬ pl.site = s := fun e => h1 e.symm
+      simp only [h', if_false] at this
+      simp only [bump_other _ h1]; omega
+  · simp only [enqueue, outstanding_qInsert]; omega
+  · simp only [enqueue, outstanding_qInsert]; omega
+
+theorem followUpDay_K (cap : Nat) (d : Int) (outs : Nat → Outcome) (sh : Shared) (h : K sh) :
+    K (followUpDay cap d outs sh) := by
+  unfold followUpDay
+  have hl : ∀ s, sh.done s + sh.dropped s + outstanding (sh.queue.drop cap) s + cnt (planned cap sh) s
+      ≤ sh.flags s := by
+    intro s
+    have h1 := h s
+    have h2 := outstanding_take_drop sh.queue cap s
+    have h3 := cnt_dedup_fold (sh.queue.take cap) [] s
+    unfold planned dedupPlans
+    simp only [cnt_nil, Nat.zero_add] at h3
+    omega
+  have key : ∀ (cs : List Plan) (sh' : Shared),
+      (∀ s, sh'.done s + sh'.dropped s + outstanding sh'.queue s + cnt cs s ≤ sh'.flags s) →
+      K (cs.foldl (applyOutcome d outs) sh') := by
+    intro cs
+    induction cs with
+    | nil => intro sh' h' s; simpa using h' s
+    | cons pl t ih => intro sh' h'; exact ih _ (applyOutcome_K d outs sh' pl t h')
+  exact key _ _ hl
 
 end LdarModel.FollowUp
